@@ -25,6 +25,9 @@ type concEv struct {
 // quiescent and its content is compared with what the sessions denote.
 func c11(c *ctx) {
 	r := c.rng
+	// ---- (0) the allocators every association shares, under concurrent callers
+	c06conc(c)
+	c07conc(c)
 	// ---- (1) cross-association sharing, one request at a time
 	for k := 0; k < c.pick(2, 12); k++ {
 		o := p4Opts(c, k)
